@@ -31,25 +31,25 @@ const (
 
 func init() {
 	vt.PropertyID = "C18"
-	// crypto laws (0.1-2 ms per case)
+	// crypto laws (0.2-8 ms per case; nep2_default ~2 s per case: scrypt with the NEP-2 cost parameters, six times)
 	vt.Register("sign_verify", 0.30, genSigCase, checkSigCase)
 	vt.Register("rfc6979", 0.15, genDetCase, checkDetCase)
 	vt.Register("pubkey_codec", 0.20, genPubCase, checkPubCase)
 	vt.Register("wif", 0.10, genWIFCase, checkWIFCase)
 	vt.Register("nep2", 0.10, genNEP2Case, checkNEP2Case)
-	vt.Register("nep2_default", 0.0006, genNEP2DefaultCase, checkNEP2Case)
+	vt.Register("nep2_default", 0.0003, genNEP2DefaultCase, checkNEP2Case)
 	vt.Register("multisig_par", 0.15, genMultisigCase, checkMultisigCase)
 	vt.Register("script_builders", 0.10, genScriptCase, checkScriptCase)
-	// codec laws (1-30 us per case)
-	vt.Register("address", 1.0, genAddressCase, checkAddressCase)
-	vt.Register("base58", 2.0, genBase58Case, checkBase58Case)
+	// codec laws (15-90 us per case)
+	vt.Register("address", 2.0, genAddressCase, checkAddressCase)
+	vt.Register("base58", 4.0, genBase58Case, checkBase58Case)
 	vt.Register("uint160_256", 2.0, genUintCase, checkUintCase)
-	vt.Register("fixed8", 3.0, genFixed8Case, checkFixed8Case)
-	vt.Register("decimal", 3.0, genDecimalCase, checkDecimalCase)
-	vt.Register("bigint", 5.0, genBigintCase, checkBigintCase)
-	vt.Register("emit_int", 1.0, genEmitIntCase, checkEmitIntCase)
-	vt.Register("emit_any", 0.5, genEmitAnyCase, checkEmitAnyCase)
-	vt.Register("merkle", 0.5, genMerkleCase, checkMerkleCase)
+	vt.Register("fixed8", 5.0, genFixed8Case, checkFixed8Case)
+	vt.Register("decimal", 5.0, genDecimalCase, checkDecimalCase)
+	vt.Register("bigint", 10.0, genBigintCase, checkBigintCase)
+	vt.Register("emit_int", 3.0, genEmitIntCase, checkEmitIntCase)
+	vt.Register("emit_any", 1.5, genEmitAnyCase, checkEmitAnyCase)
+	vt.Register("merkle", 1.0, genMerkleCase, checkMerkleCase)
 }
 
 // ---- curves and keys ---------------------------------------------------------------------------------
